@@ -730,10 +730,13 @@ def menu(st, paths):
             if not isl:
                 for t in link_targets(p, paths):
                     ops.append(("link", p, t))
+                if isf and 0 < len(e[1]) <= 8 and b"/" not in e[1]:
+                    ops.append(("link", p, e[1]))  # same blob, other type
             if e != "dir":
                 ops.append(("dir", p))
         pre = p + b"/"
-        if e is not None or p in st.index or any(q.startswith(pre) for q in st.index):
+        beyond_symlink = any(isinstance(st.wd.get(q), tuple) and st.wd[q][0] == "l" for q in wm.prefixes(p))  # git add: "beyond a symbolic link"
+        if (e is not None or p in st.index or any(q.startswith(pre) for q in st.index)) and not beyond_symlink:
             ops.append(("stage", p))
         if p in st.index or p in st.head:
             ops.append(("unstage", p))
@@ -961,7 +964,7 @@ def run_edits(acc, sid, ops, use_git, judge_last=True, expect_key=None):
             acc.outcome("op:%s" % k)
             idx, clean, problem = box.read_index()
             where = "op:%s" % (OP_API[k] if is_index_op else "edit")
-            if not problem and idx != new.index:
+            if not problem and idx != new.index and gittree.consistent([(x, m, h) for x, (m, h) in sorted(idx.items())]):
                 cls, p = index_diff_class(new.index, idx)
                 if not is_index_op:
                     raise HarnessError("a harness edit changed the index?! %s" % desc)
@@ -1030,7 +1033,7 @@ def bfs(ctx, depth, use_git):
     while level and d < depth:
         parts = split(ctx.order(level), ctx.jobs * 4)
         found = {}
-        for acc, out in pmap(work_level, [(part, use_git) for part in parts], jobs=ctx.jobs):
+        for acc, out in pmap(work_level, [(part, use_git) for part in parts], jobs=ctx.jobs, ordered=True):
             ctx.acc.merge(acc)
             for sid, key, ops in out:
                 k = (sid, key)
@@ -1131,10 +1134,11 @@ def run(ctx):
             for b in u:
                 pairs.add((a, b))
     pairs = sorted(pairs)
-    sw = [(a, b, m) for a, b in pairs for m in SWITCHES]
+    first = set(us[0][1])
+    sw = [(a, b, m) for a, b in pairs for m in SWITCHES if m == "porcelain.checkout" or (a in first and b in first) or (len(a) <= 1 and len(b) <= 1)]
     tasks += [("switch", part, True) for part in split(ctx.order(sw), J * 2)]
     tasks = ctx.order(tasks)
-    for acc in pmap(work, tasks, jobs=ctx.jobs):
+    for acc in pmap(work, tasks, jobs=ctx.jobs, ordered=True):
         ctx.acc.merge(acc)
     t12 = ctx.elapsed()
     # (3)
